@@ -47,6 +47,7 @@ where
 /// in-process in microseconds and never blocks.
 pub const TARGETS: &[(&str, &str)] = &[
     ("C02", "engine-random"),
+    ("C05", "voting-order"),
     ("C07", "box-regular"),
     ("C07", "points"),
     ("C07", "cost"),
@@ -74,6 +75,7 @@ pub const TARGETS: &[(&str, &str)] = &[
 fn make(prop: &str, sub: &str) -> Option<Runner> {
     Some(match (prop, sub) {
         ("C02", "engine-random") => mk("engine-random", c02::random_matrix(), c02::check_matrix),
+        ("C05", "voting-order") => mk("voting-order", c05::vote_case(), c05::check_vote),
         ("C07", "box-regular") => mk("box-regular", c07::box_seq(false), c07::check_box_seq),
         ("C07", "points") => mk("points", c07::point_seq(), c07::check_point_seq),
         ("C07", "cost") => mk("cost", c07::cost_case(), c07::check_cost),
